@@ -283,7 +283,7 @@ def first_diff(a, b):
 
 
 def short(case):
-  return {k: case[k] for k in case if k != 'prefix'} | {'prefix_len': len(case.get('prefix', []))}
+  return dict(case)      # the whole case (replayable): designer, seed, problem, given history, shape
 
 
 def attribute(case, base, singles):
@@ -307,9 +307,10 @@ def attribute(case, base, singles):
   return cause or ['OS entropy or the clock advancing between two plain runs in one process (pinning np.random / random does not make them agree)']
 
 
-def dynamic_stage(c, level, summ, verdict, focus=None, tag=''):
+def dynamic_stage(c, level, summ, verdict, focus=None, tag='', cases=None):
   rng = c.rng
-  cases = gen_cases(c, level, focus)
+  if cases is None:
+    cases = gen_cases(c, level, focus)
   if not cases:
     return
   nongp = [x for x in cases if x['designer'] in NONGP]
@@ -373,7 +374,8 @@ def dynamic_stage(c, level, summ, verdict, focus=None, tag=''):
         if verdict.get(summ['designers'][LABEL[d]], {}).get('seed_used') and kind == 'designer':
           c.tie_break('model seedUsed vs real runs', {'designer': d}, 'seed ignored', 'seedUsed = true')
     if idx < 2:
-      c.sample({'case': short(case), 'first_outputs': items[:2]})
+      c.sample({'case': {k: case[k] for k in case if k != 'prefix'}, 'given_history_len': len(case.get('prefix', [])),
+                'first_outputs': items[:2]})
   # fresh processes
   for batch, p in workers:
     res = join_worker(p, len(batch), timeout=1500)
@@ -401,10 +403,13 @@ def run(c):
   level = 0 if c.tier == 'quick' else 1
   if getattr(c, 'replay_path', None):
     obj = json.load(open(c.replay_path))
-    case = obj.get('case', {}).get('case')
-    if case and 'designer' in case:
+    case = (obj.get('case') or {}).get('case')
+    if case and 'designer' in case and 'problem' in case:
       c.notes.append('replay of %s' % c.replay_path)
-      dynamic_stage(c, level, summ, verdict, focus=[case['designer']], tag=':replay')
+      dynamic_stage(c, level, summ, verdict, tag=':replay', cases=[case])
+    else:
+      # a replay that names a broken obligation only: run the normal search
+      dynamic_stage(c, level, summ, verdict)
   else:
     dynamic_stage(c, level, summ, verdict)
 
